@@ -171,7 +171,7 @@ def gen_configs(pid, tier):
         return cfgs
     cfgs = [
         # crash after every prefix; data syncs vs directory syncs vs renames
-        ("gen_crash_files", consts(pid, OpKinds={"write_file", "open", "sync_all", "sync_dir", "rename", "remove_file", "crash"},
+        ("gen_crash_files", consts(pid, OpKinds={"write_file", "open", "sync_all", "sync_dir", "rename", "crash"} | (set() if q else {"remove_file"}),
                                    RenFiles={"/a", "/b"}, OpenModes={"rw"}, MaxLen=6 if q else 7, MaxCrash=1),
          "edges", True, [("std", 1)]),
         ("gen_crash_data", consts(pid, OpKinds={"open", "write", "set_len", "sync_all", "sync_data", "sync_dir", "remove_file", "crash"},
